@@ -8,6 +8,21 @@ PROPS = [json.loads(l)['id'] for l in open(os.path.join(HERE, 'properties.jsonl'
 TRUST = ('Trusted base: clang 14 parser/sema as the reading of the source; the lpx extractor; sympy expand/cancel/diff as term '
          'normaliser; the paper lemmas of DESIGN.md section 3. Formulas are compared over the reals (no rounding). ')
 
+# rules added during the robustness / second seeding rounds (appended to the decided clauses)
+EXTRA = {
+    'C01': 'every returning path of Interpolate evaluates the segment polynomial (shortcuts only at exactly tested points)',
+    'C04': 'size invariant of Vector (components.size()==dimension after every writer) and copy completeness of the copy constructors / operator= of Vector and Matrix (every member copied on every path)',
+    'C06': 'GammaP+GammaQ=1 as an identity of terms on every pair of branches; no history-carrying function-local state in the gamma family (exact caches exempt)',
+    'C07': 'the tabulated KDE value is the kernel sum divided by bandwidth times the total weight',
+    'C08': 'cached state of the integral/extremum queries: every writer of an input of the cached value (transitively through in-class helpers) touches the cache',
+    'C10': 'every field the domain guard of Locate reads is computed after the abscissae received their unit factor; Export_Table checks the length of every row; an order guard written with std::adjacent_find',
+    'C12': 'the rule builder and the three integrators keep no history-carrying local state (exact caches exempt)',
+    'C14': 'every value Miser writes into its mean is the mean of the box\'s own samples or the fraction-weighted mean of its two halves',
+    'C15': 'C15.a/b/c are decided on normal forms of object-valued terms (reflector I-2uu^T, one QR sweep incl. early-continue paths, one QR iteration and its convergence measure)',
+    'C19': 'Range written with a precomputed length is evaluated as a closed form on the complete domain min,max in [-40,40], stepsize 1..40',
+    'C20': 'Count_Lines counts every line unconditionally; Export/Import element and unit terms are evaluated in the loop state',
+}
+
 # property -> (technique, decided clauses, not decided clauses)
 CLAIMS = {
     'C01': ('AST-derived symbolic normal forms (custom libTooling extractor + sympy): Hermite/limiter/bilinear identities',
@@ -116,7 +131,7 @@ CLAIMS = {
             'C12.b nodes mid-/+hw z and equal weights 2hw/((1-z^2)pp^2) for the pair (i,n-1-i), i<(n+1)/2 covering all indices, no other write to the rule; '
             'C12.c the three overloads chain to sum values[i]*rule[i][1] with values[i]=f(rule[i][0]), the rule is built for exactly (n,a,b), mismatched lengths exit',
             'convergence of the Newton iteration for every n, strict ordering/interiority of computed nodes, positivity of computed weights, exactness to rounding'),
-    'C15': ('structural rules on the reflector/QR/QR-iteration code, loop-bound census, loop-carried-state analysis; two findings recorded in known_findings.json',
+    'C15': ('normal forms of object-valued terms for the reflector/QR/QR-iteration code, loop-bound census, loop-carried-state analysis; two findings recorded in known_findings.json',
             'C15.a reflector I-2uu^T with u=normalised(x-Sign(|x|,-x0)e1) on every path (exceptions only under exact degeneracy tests); C15.b same embedded reflector applied as '
             'R<-PR, Q<-QP, conforming blocks, zeroing below the diagonal; C15.c A<-RQ, convergence measure sum|sub|/sum|diag| (absolute values), cap with diagnostic; '
             'C15.d every loop in the closure of Eigensystem is bounded (KNOWN FINDING: Rayleigh while-loop); C15.e the shift handed to Inverse is unperturbed '
@@ -145,6 +160,8 @@ def main():
         if p not in CLAIMS:
             continue
         tech, decided, notdec = CLAIMS[p]
+        if p in EXTRA:
+            decided = decided + '; ' + EXTRA[p]
         checks.append({
             'property_id': p,
             'quick_cmd': 'python3-vt lpv.py check %s --tier quick' % p,
